@@ -96,7 +96,7 @@ def verify_contract(reg: Registry, c: Contract, cfg: Config) -> FunctionReport:
             it.ghost[gname] = gval.make(it, f"ghost:{gname}") if hasattr(gval, "make") else gval
         path.inputs = args
         pre = C.snapshot(args)
-        path.model_hook = lambda m, _a=pre: C.concretize_inputs(_a, m)
+        path.model_hook = lambda m, _a=pre, _it=it: C.concretize_inputs(_a, m, _it.abstract_log)
         env = Env(module=fn.module)
         env.vars.update(args)
         for r in c.requires:
